@@ -67,6 +67,9 @@ pub struct EvSpec {
     pub kind: u8,
     #[serde(default)]
     pub bad_ts: bool,
+    /// content kind of the metadata (default: derived from `kind`, never random bytes)
+    #[serde(default)]
+    pub meta_kind: Option<u8>,
 }
 
 #[derive(Clone, Debug, Serialize, Deserialize)]
@@ -424,7 +427,7 @@ impl Harness {
                 stream,
                 expect,
                 name,
-                metadata: gen_bytes(e.kind.wrapping_add(1), e.meta_len, spec.seed ^ (i as u64) << 8),
+                metadata: gen_bytes(e.meta_kind.unwrap_or(e.kind.wrapping_add(1)), e.meta_len, spec.seed ^ (i as u64) << 8),
                 payload: gen_bytes(e.kind, e.payload_len, spec.seed ^ ((i as u64) << 16) ^ 0x77),
                 timestamp: if e.bad_ts { (1u64 << 63) | (spec.seed & 0xFFFF) } else { GOOD_TS + (spec.seed & 0xFFFFF) + i as u64 },
             });
